@@ -214,9 +214,15 @@ func c31aCheck(c *kit.Case, in c31aInput) {
 	}
 	if wantSome {
 		if len(want) == 0 {
-			c.Class("empty_blob_indistinguishable_from_nothing")
+			c.Class("empty_blob_available")
 			if len(got) != 0 {
 				c.Failf("empty preimage expected, got %x", []byte(got))
+			}
+			// "nothing" is the nil result (the historical_lookup host call answers NONE for nil and
+			// the length, here 0, for a blob): the stored, available empty preimage (a non-nil
+			// empty sequence in the account) must not come back as nothing
+			if got == nil {
+				c.Failf("HistoricalLookup(rec=%v, t=%d) returned nil (nothing) for the stored, available EMPTY preimage", in.Rec, in.T)
 			}
 			return
 		}
